@@ -172,6 +172,9 @@ def make_logging_scheduler(base):
             except asyncio.CancelledError:
                 self.trace.log('shutdown-cancelled', self.name, call=k)
                 raise
+            except BaseException as exc:
+                self.trace.log('shutdown-raised', self.name, call=k, exc=exc)
+                raise
             self.trace.log('shutdown-done', self.name, result=r, call=k)
             return r
     return LSched
